@@ -34,9 +34,14 @@ def run(tier):
         table, behs = syntax.generate(check, family, rootcat="inner", rootmax=1, num=n * 3, seed=core.seed() + 70, depth=2)
         stmts = []
         for i, b in enumerate(behs):
-            P = syntax.Program(table, b, random.Random(core.seed() * 31 + i))
+            try:
+                P = syntax.Program(table, b, random.Random(core.seed() * 31 + i))
+            except syntax.Skip:
+                continue
             s = P.render(syntax.layout_uniform("none"))[len("<?php "):].decode("latin-1")
-            stmts.append(s + ("\n" if i % 3 == 0 else " "))
+            if "?>" in s:
+                continue          # a statement that leaves PHP mode cannot be concatenated with the next one
+            stmts.append(s + "\n")
         for i in range(n):
             seq = [stmts[(3 * i + k) % len(stmts)] for k in range(4)]
             kind = ["top", "function", "block"][i % 3]
